@@ -33,6 +33,16 @@ var (
 	zzC10Funcs = map[string]uintptr{}
 )
 
+type c10ExposedFn struct {
+	fn interface{}
+	a  uintptr
+}
+
+var (
+	c10Exposed   []c10ExposedFn
+	c10ExposedMu sync.Mutex
+)
+
 func c10ErrClass(err error) string {
 	m := err.Error()
 	switch {
@@ -128,13 +138,26 @@ func c10Query(q string) (obs, rt string) {
 			return c10ErrClass(err), "-"
 		}
 		a := reflect.ValueOf(fn).Pointer()
+		// function values handed out earlier must keep pointing where they pointed (each owns its code-pointer cell)
+		c10ExposedMu.Lock()
+		for _, e := range c10Exposed {
+			if reflect.ValueOf(e.fn).Pointer() != e.a {
+				c10ExposedMu.Unlock()
+				return "exposed-value-changed", "-"
+			}
+		}
+		if len(c10Exposed) >= 8 {
+			c10Exposed = c10Exposed[1:]
+		}
+		c10Exposed = append(c10Exposed, c10ExposedFn{fn, a})
+		c10ExposedMu.Unlock()
 		return fmt.Sprintf("ok:%#x", a), vh.FuncTruth(name, a, zzC10Funcs)
 	}
 	return "bad-query", "-"
 }
 
 // c10SelfAction damages the process' own executable file before the first lookup ($VERIF_C10_SELF):
-// delete | chmod000 | replace-same (new file, same bytes).  It reports whether the file can still be opened.
+// delete | chmod000 | replace-same (new file, same bytes) | replace-other (new file, another program).  It reports whether the file can still be opened.
 func c10SelfAction() string {
 	act := os.Getenv("VERIF_C10_SELF")
 	if act == "" {
@@ -149,6 +172,14 @@ func c10SelfAction() string {
 		err = os.Remove(exe)
 	case "chmod000":
 		err = os.Chmod(exe, 0)
+	case "replace-other":
+		// the file at the executable's path now holds ANOTHER program ($VERIF_C10_OTHER), as after a rebuild while running
+		var b []byte
+		if b, err = os.ReadFile(os.Getenv("VERIF_C10_OTHER")); err == nil {
+			if err = os.Remove(exe); err == nil {
+				err = os.WriteFile(exe, b, 0o755)
+			}
+		}
 	case "replace-same":
 		var b []byte
 		if b, err = os.ReadFile(exe); err == nil {
